@@ -347,8 +347,8 @@ def x7_shims(text, log):
     # String + &String
     def concat(m):
         log.add("X7:vx_concat")
-        return "vx_concat(%s, &%s)" % (m.group(1), m.group(2))
-    text = re.sub(r"\b(str1)\s*\+\s*&(str2)\b", concat, text)
+        return "Value::Str(vx_concat(%s, &%s))" % (m.group(1), m.group(2))
+    text = re.sub(r"Value::Str\(\s*([a-z_][a-z0-9_]*)\s*\+\s*&([a-z_][a-z0-9_]*)\s*\)", concat, text)
 
     def peek(m):
         log.add("X7:vx_peekable")
